@@ -275,6 +275,18 @@ package types
 //@   ensures[* others] forall id String :: n == nil || id != n.Id ==> StHas("nodecreds", id) == old(StHas("nodecreds", id)) && StGet("nodecreds", id) == old(StGet("nodecreds", id))
 //@   modifies StNodeCreds
 
+// ---------------------------------------------------------------- node-side credential creation (C12, C13)
+
+//@ func types.NewNodeCredentials
+//@   nopanic[C13]
+//@   ensures[C13,C12 failclosed] err != nil ==> ret == nil
+//@   ensures[C13 created] err == nil ==> ret != nil && fresh(ret) && ret.Id == "current" && len(ret.CertificatePrivateKeyPkcs8) != 0
+//@   |   && len(ret.EncryptionPrivateKeyBytes) == 32 && ret.EncryptionPrivateKeyType == KEYTYPE_X25519 && ret.CertificatePrivateKeyType == KEYTYPE_ED25519
+//@   ensures[C13 durable] err == nil && !opts(opt).WithSkipStorage ==> StHas("nodecreds", "current") && storedCreds(StGet("nodecreds", "current"), ret)
+//@   ensures[C13 failed] err != nil ==> StHas("nodecreds", "current") == old(StHas("nodecreds", "current")) && StGet("nodecreds", "current") == old(StGet("nodecreds", "current"))
+//@   call types.(*NodeCredentials).Store assert[C12 wrapperpassed] opts(arg3).WithStorageWrapper == opts(opt).WithStorageWrapper
+//@   modifies StNodeCreds
+
 // ---------------------------------------------------------------- node side of a fetch (C04, C13)
 //
 // openedWith(ks, C, nonce): ciphertext C opens under the current or the previous
@@ -293,6 +305,7 @@ package types
 //@   ensures[C04 echotoken] err == nil && tok != "" ==> openedWith(ks, blobCt(input.EncryptedNodeCredentials), unb58(trimPrefix(tok, "neslat_")))
 //@   ensures[C04,C13 durable] err == nil && !opts(opt).WithSkipStorage ==> StHas("nodecreds", "current") && storedCreds(StGet("nodecreds", "current"), n)
 //@   ensures[C13 failed] err != nil ==> StHas("nodecreds", "current") == old(StHas("nodecreds", "current")) && StGet("nodecreds", "current") == old(StGet("nodecreds", "current"))
+//@   call types.(*NodeCredentials).Store assert[C12 wrapperpassed] opts(arg3).WithStorageWrapper == opts(opt).WithStorageWrapper
 //@   modifies fields(n), StNodeCreds
 
 //@ func types.LoadNodeCredentials
